@@ -28,6 +28,20 @@ CHECKS = {
 
 NOT_APPLICABLE = []
 
+CHECKS['C05'] = (
+    'bounded exploration of real engine runs of fan-out / fan-in data-flow '
+    'shapes on minidb with completion order, task id order and outcomes as '
+    'solver variables and the real YAQL evaluator on the values; symbolic '
+    'execution of the context lookup over layer presence with the real YAQL '
+    'and Jinja evaluators',
+    'At the join every variable carries the value of the latest task on a '
+    'causal path (nested and 3-deep values merge per leaf), never a stale '
+    'inherited copy, for every explored completion / id order; stored '
+    'inbound contexts are not modified; task-level and transition-level '
+    '(branch + global) publish are united; lookups follow the documented '
+    'layer order in both syntaxes.',
+    '§3 C05')
+
 CHECKS['C09'] = (
     'bounded exploration of real engine runs of nested workflows on minidb '
     '(3 levels, with-items over sub-workflows, in-process and via the '
